@@ -458,6 +458,10 @@ func (m *Machine) rLock(c *Cell) {
 	m.yieldPoint("rlock")
 	m.block(func() bool { return m.held[c] == nil }, "RLock")
 	m.rheld[c]++
+	if m.rheldBy[m.cur] == nil {
+		m.rheldBy[m.cur] = map[*Cell]int{}
+	}
+	m.rheldBy[m.cur][c]++
 }
 
 func (m *Machine) rUnlock(c *Cell) {
@@ -465,6 +469,9 @@ func (m *Machine) rUnlock(c *Cell) {
 		m.goPanic("sync: RUnlock of unlocked RWMutex")
 	}
 	m.rheld[c]--
+	if m.rheldBy[m.cur] != nil {
+		m.rheldBy[m.cur][c]--
+	}
 	m.yieldPoint("runlock")
 }
 
